@@ -17,6 +17,12 @@ module_def_file('zoo/x.def')
 zdir = directory('zoo/dir', include='*.dat')
 build_step('zout.txt', cmd=[R, 'Z', source_file('zoo/in.txt'), zdir])
 test(executable('zoo3', ['zoo/t.c'], includes=[header_file('zoo/t.h')]))
+# files kept out of the distribution (dist=False) that steps nevertheless
+# name: on a command line, as a further dependency
+znd1 = generic_file('zoo/local.cfg', dist=False)
+znd2 = source_file('zoo/stamp.c', dist=False)
+build_step('zout2.txt', cmd=[R, 'Z2', znd1], extra_deps=[znd2])
+command('zcmd', cmd=[R, 'Z3', znd1], extra_deps=[znd2])
 # vendored headers of the project, searched like a system directory
 zsys = header_directory('zoo/vendor/include', include='**/*.h', system=True)
 executable('zoo4', ['zoo/v.c'], includes=[zsys, header_file('zoo/sysone.h')])
@@ -28,6 +34,10 @@ ZOO_NAMED = ['zoo/' + x for x in (
     'tool.1', 'c1.txt', 'c2.txt', 'auto.c', 'x.def', 'dir/a.dat', 'in.txt',
     't.c', 't.h', 'vendor/include/third/party.h', 'vendor/include/top.h',
     'v.c', 'sysone.h')]
+
+
+# files the zoo marks dist=False (none of them may be distributed)
+ZOO_NODIST = ['zoo/local.cfg', 'zoo/stamp.c']
 
 
 def zoo_files():
@@ -42,6 +52,8 @@ def zoo_files():
     f['zoo/vendor/include/third/party.h'] = '#define PARTY 1\n'
     f['zoo/vendor/include/top.h'] = '#define TOP 1\n'
     f['zoo/sysone.h'] = '#define SYSONE 1\n'
+    f['zoo/local.cfg'] = 'cfg\n'
+    f['zoo/stamp.c'] = 'int stamp;\n'
     f['zoo/v.c'] = 'int v;\n'
     f['zoo/tool.1'] = '.TH tool 1\n'
     for z in ('c1.txt', 'c2.txt', 'x.def', 'in.txt', 'dir/a.dat',
